@@ -1419,6 +1419,11 @@ func (s *session) stopResponder() {
 // pre-drawn policy and the request (the responder goroutine draws nothing).
 func (s *session) answer(rq rxMsg, n int) (uint64, []byte) {
 	atomic.AddInt64(&answered, 1)
+	return s.answerAs(s.policy, rq)
+}
+
+// answerAs computes the reply under the given policy (s.policy is read-only while responders run).
+func (s *session) answerAs(policy string, rq rxMsg) (uint64, []byte) {
 	switch rq.code {
 	case codeGetBlockHashesFrom:
 		var q wGetHashesFrom
@@ -1426,7 +1431,7 @@ func (s *session) answer(rq rxMsg, n int) (uint64, []byte) {
 			return 0, nil
 		}
 		var hs []types.Hash
-		switch s.policy {
+		switch policy {
 		case "garbage":
 			for i := uint64(0); i < q.Amount && i < 600; i++ {
 				hs = append(hs, unknownHash(s.seed, 100000+i))
@@ -1467,7 +1472,7 @@ func (s *session) answer(rq rxMsg, n int) (uint64, []byte) {
 				continue
 			}
 			d := s.momentumAt(ht)
-			switch s.policy {
+			switch policy {
 			case "mutated":
 				if ht > s.k && i == 0 {
 					if f := sim.InjectFault(d, s.polFault, s.sh.w.Keys, nil); f != nil {
@@ -1487,7 +1492,7 @@ func (s *session) answer(rq rxMsg, n int) (uint64, []byte) {
 			}
 			out = append(out, d)
 		}
-		switch s.policy {
+		switch policy {
 		case "garbage", "empty":
 			out = nil
 		case "raw":
